@@ -1,6 +1,7 @@
 package main
 
 import (
+	"sync/atomic"
 	"context"
 	"encoding/json"
 	"fmt"
@@ -51,6 +52,10 @@ type c30Resolver struct {
 	segs []*ref.SegSpec
 	last []ref.Req
 	n    int
+	// delay: the segment lookup takes that long (slow control service);
+	// tDone: when the last lookup handed its answer back.
+	delay time.Duration
+	tDone time.Time
 }
 
 func typeName(t seg.Type) string {
@@ -88,6 +93,10 @@ func (r *c30Resolver) Resolve(_ context.Context, reqs segfetcher.Requests, _ boo
 			}
 		}
 	}
+	if r.delay > 0 {
+		time.Sleep(r.delay)
+	}
+	r.tDone = time.Now()
 	return out, nil, nil
 }
 
@@ -308,6 +317,8 @@ func c30Dsts(c *c30Case) []struct {
 	return out
 }
 
+var c30SlowBudget atomic.Int64
+
 func c30Phase3(r *mon.Run, c *c30Case) {
 	t, rng := c.topo, c.rng
 	ctx := context.Background()
@@ -497,9 +508,21 @@ func c30Phase3(r *mon.Run, c *c30Case) {
 		var paths []snet.Path
 		var err error
 		res.take()
+		// a few lookups are answered slowly by the control service, long enough
+		// for segments that are about to expire to do so while the lookup waits
+		res.delay, res.tDone = 0, time.Time{}
+		slow := false
+		if anyNear && c30SlowBudget.Add(-1) >= 0 {
+			res.delay = time.Duration(1500+rng.IntN(2500)) * time.Millisecond
+			slow = true
+			r.Event("lookup_with_slow_segment_fetch")
+		}
 		t0 := time.Now()
 		pv, stack := mon.Try(func() { paths, err = pather.GetPaths(ctx, dst, refresh) })
 		t1 := time.Now()
+		tFetched := res.tDone
+		res.delay = 0
+		_ = slow
 		reqs, nres := res.take()
 		if pv != nil {
 			r.Violation("C30:panic:"+mon.PanicSite(stack), fmt.Sprintf("GetPaths panicked: %v\n%s", pv, stack),
@@ -656,6 +679,12 @@ func c30Phase3(r *mon.Run, c *c30Case) {
 			switch {
 			case !exp.After(t0):
 				r.Violation("C30:expired-path", fmt.Sprintf("returned path expired at %s, lookup started at %s", exp.Format(time.RFC3339Nano), t0.Format(time.RFC3339Nano)), wit(""))
+			case !tFetched.IsZero() && !exp.After(tFetched.Add(-time.Millisecond)):
+				// paths can only be built once the segments are there: a path that
+				// had expired before the segment lookup even returned was expired
+				// whenever it was judged
+				r.Violation("C30:expired-path", fmt.Sprintf("returned path expired at %s, before the segment lookup handed its answer back at %s (lookup started at %s)",
+					exp.Format(time.RFC3339Nano), tFetched.Format(time.RFC3339Nano), t0.Format(time.RFC3339Nano)), wit(""))
 			case !exp.After(t1):
 				inconclusive = true
 			}
@@ -699,6 +728,7 @@ func c30Phase3(r *mon.Run, c *c30Case) {
 }
 
 func checkC30(r *mon.Run) {
+	c30SlowBudget.Store(int64(r.Pick(4, 24)))
 	r.Rule = "case = generated topology (1-3 ISDs, 1-3 cores, provider DAG, peering) x local AS (core/non-core) x hand-built up/core/down " +
 		"segments with expiries relative to now (live, expired, within seconds of expiry) x revocations in a real memrevcache " +
 		"(active, about to expire, expired but stored, expired on insert, other AS) x destination kind (core/non-core, same/other ISD, " +
@@ -734,7 +764,7 @@ func checkC30(r *mon.Run) {
 		parallel(len(cases), func(i int) { c30Phase3(r, cases[i]) })
 	}
 	if r.ReplayFile() == "" {
-		r.Require(int64(n)*4, 60, "lookup", "path", "lookup_nonempty", "lookup_empty", "lookup_revocation_filtered",
+		r.Require(int64(n)*4, 60, "lookup_with_slow_segment_fetch", "lookup", "path", "lookup_nonempty", "lookup_empty", "lookup_revocation_filtered",
 			"local_lookup", "split_judged", "paths_judged", "path_near_expiry_returned", "path_over_expired_revocation",
 			"path_over_peering_link", "path_with_1_segments", "path_with_2_segments", "path_with_3_segments")
 	}
